@@ -122,6 +122,10 @@ def owner(rej, group=None, evs=()):
             # the client abandoned the connection over a response it did not find pending where the spec has the call
             # completed (or pending with another outcome): a routing matter as much as a shutdown matter
             return ("C03", "C09"), "unmatched:FeDone:restart-notPending"
+        if k == "restart" and any(x.get("ev") == "WireIn" for x in evs):
+            # the call ends with the connection's cause where the spec has another outcome for it - after the peer has said
+            # something: the outcome may be an answer that was consumed for it (routing) as well as a wrong hand-over (shutdown)
+            return ("C03", "C09"), "unmatched:FeDone:restart-other-outcome-due"
         return "C09", "unmatched:FeDone:" + k
     if ev == "OnDisconnect":
         res = e.get("res", {})
